@@ -12,7 +12,7 @@ import re
 
 import vf
 
-NPROG = 13
+NPROG = 16
 
 
 def run(ctx):
